@@ -35,6 +35,10 @@ func genHalt(c *Ctx) error {
 	if c.Flag("tiny") {
 		nHist = 3
 	}
+	directedHaltRecoveryFault(c)
+	if c.Arg == "recovery-fault" {
+		return nil
+	}
 	directedHaltCatchUp(c)
 	for h := 0; h < nHist; h++ {
 		ps := pick(r, []int{512, 1024, 4096})
@@ -250,6 +254,54 @@ func genHalt(c *Ctx) error {
 				states(what + " (publish without lock)")
 				observe(what+" (no lock)", P, primary)
 				fmt.Fprintf(&sig, ",nolock%v", held)
+			case k >= 7 && k < 9 && (!P.wal || r.Chance(1, 3)): // the lock expires while its holder is cut off; the primary's newer state then arrives as a snapshot
+				do(fmt.Sprintf("halt-ttl %d short", primary))
+				out := do(fmt.Sprintf("halt %d %d", rep, id))
+				do(fmt.Sprintf("halt-ttl %d long", primary))
+				if !strings.HasPrefix(out, "ok ") {
+					break
+				}
+				do(fmt.Sprintf("net %d off", rep))
+				do(fmt.Sprintf("halt-expire %d", primary))
+				P.restarted()
+				// the primary moves on by two transactions and its retention sweep removes the first of
+				// them: the former holder cannot be sent the file that follows its position
+				only = map[int]bool{primary: true}
+				for j := 0; j < 2; j++ {
+					pagerStep(c, P, 4)
+					st := do(fmt.Sprintf("n %d state", primary))
+					record(P, posOf(st))
+				}
+				do(fmt.Sprintf("n %d age", primary))
+				do(fmt.Sprintf("n %d retain", primary))
+				do(fmt.Sprintf("n %d ltx", primary))
+				only = nil
+				do(fmt.Sprintf("net %d on", rep))
+				observe(what+" (former holder caught up by snapshot)", P, primary)
+				// the former holder's application writes: the node has no write authority any more
+				R.img, R.tok = append([][]byte{}, P.img...), append([]string{}, P.tok...)
+				R.wal, R.changeCtr = P.wal, P.changeCtr+uint32(1000*(i+1))
+				if R.wal {
+					R.walTx(R.randomShape(3), false, false, false)
+				} else {
+					R.journalTx(R.randomShape(3), 0, 0)
+				}
+				refusals++
+				expectExit[rep] = true
+				st := do(fmt.Sprintf("n %d state", rep))
+				delete(expectExit, rep)
+				if strings.Contains(st, "exit=") {
+					// (a WAL commit that cannot be published stops the node by design; here the write
+					// should never have got that far)
+					c.Fail(fmt.Sprintf("history %d %s: a write on a former halt-lock holder (lock expired, caught up by snapshot) was accepted up to the commit: %s", h, what, st))
+					failed = true
+					break
+				}
+				observe(what+" (former holder refused)", P, primary)
+				do(fmt.Sprintf("unhalt %d %d", rep, id))
+				observe(what+" (expired, snapshot, released)", P, primary)
+				sig.WriteString(",expired-snapshot")
+				c.Count("halt.expired-snapshot")
 			case k < 9 && P.wal: // the lock expires while the replica still believes to hold it
 				do(fmt.Sprintf("halt-ttl %d short", primary))
 				out := do(fmt.Sprintf("halt %d %d", rep, id))
@@ -462,5 +514,69 @@ func directedHaltCatchUp(c *Ctx) {
 			c.Count("directed.halt-catch-up")
 			c.Nontrivial(fmt.Sprintf("directed-halt-catch-up|%v|%d", wal, inFlight))
 		}
+	}
+}
+
+// directedHaltRecoveryFault: the recovery step of a halt acquisition on the primary fails (a
+// journal left behind whose header names another page size cannot be rolled back): the request
+// is refused, and nothing of the halt may stay behind — a retry with the same lock id must not be
+// answered "granted" unless the primary really holds its write lock for the caller, so local
+// readers and writers on the primary are either all refused (granted) or admitted (refused).
+func directedHaltRecoveryFault(c *Ctx) {
+	r := c.Rng
+	for _, wal := range []bool{false, true} {
+		cs := c.Begin()
+		do := func(op string) string { c.Count("op." + strings.Fields(op)[0]); return cs.Do(op) }
+		what := fmt.Sprintf("halt recovery fault (wal=%v)", wal)
+		p := newPager(r, 1024, func(op string) string { return do("n 0 " + op) })
+		p.journalMode = "DELETE"
+		do("cluster 2")
+		do("allow 0")
+		do("up 0")
+		do("up 1")
+		do("sync")
+		do("n 0 createdb")
+		p.journalTx(p.randomShape(4), 0, 0)
+		if wal {
+			p.wal = true
+			p.journalTx(txShape{newN: len(p.img), pages: map[int]bool{1: true}, commit: true}, 0, 0)
+			p.walTx(p.randomShape(3), false, false, false) // the WAL file exists from now on
+		}
+		do("sync")
+		st0 := do("n 0 state")
+		do(fmt.Sprintf("hist %s %s", posOf(st0), p.refImageDigest()))
+		do("n 1 state")
+		// a journal whose header is valid but names a page size of 4096 (the database has 1024)
+		hdr := "d9d505f920a163d7" + "00000001" + "0badcafe" + "00000002" + "00000200" + "00001000" + "+z484+z1024"
+		do("n 0 plant journal " + hdr)
+		first := do("halt 1 700")
+		for attempt := 0; attempt < 2; attempt++ {
+			out := do("halt 1 700") // the replica's interrupted call is retried with the same id
+			granted := strings.HasPrefix(out, "ok ")
+			var got string
+			if wal {
+				got = do("n 0 lock 9 WRITE")
+			} else {
+				got = do("n 0 rlock 9 PENDING")
+			}
+			if granted && got != "false" {
+				c.Fail(fmt.Sprintf("%s: the retried halt request was answered %q (first answer %q) but a local connection on the primary got its lock: the primary does not hold the locks of the halt it reports", what, out, first))
+			}
+			if got != "false" {
+				if wal {
+					do("n 0 unlock 9 WRITE")
+				} else {
+					do("n 0 unlock 9 PENDING")
+				}
+			}
+			if granted {
+				do("unhalt 1 700")
+			}
+		}
+		do("n 0 state")
+		do("n 1 state")
+		cs.End()
+		c.Count("directed.halt-recovery-fault")
+		c.Nontrivial(fmt.Sprintf("directed-halt-recovery-fault-%v", wal))
 	}
 }
